@@ -31,7 +31,9 @@ ATOMS = {"A": ["A"], "B": ["B"], "G": ["G"], "x": ["x"], "y": ["y"], "z": ["z"],
          "C(B, contr.sum)": ["B"], "center(x)": ["x"], "I(x * y)": ["x", "y"], "C(G)": ["G"], "scale(z)": ["z"], "poly(y, 3)": ["y"],
          "poly(center(z), 2)": ["z"], "I(center(x) ** 2)": ["x"], "scale(log(z ** 2 + 1))": ["z"],
          # a multi-column factor supplied by the caller's context as a mapping of sub-columns
-         "extras": []}
+         "extras": [],
+         # a factor whose own text holds a ':' (printed back-quoted inside a term)
+         "I(x[0:])": ["x"]}
 
 
 def make_ctx(rows, order="uvw"):
@@ -122,6 +124,8 @@ def check_spec(ms, M, mm, out, tag, case):
             except (KeyError, ValueError) as e:
                 if kind == "printed" and len(fs) >= 2 and fs != sorted(fs):
                     out.fail("c10.lookup_by_unsorted_printed_form", f"{tag}: lookup by printed form {key!r} fails ({type(e).__name__})")
+                elif kind == "printed" and any(":" in x for x in fs):
+                    out.fail("c10.lookup_by_printed_form_colon_in_factor", f"{tag}: lookup by printed form {key!r} fails ({type(e).__name__}): a factor's own text holds ':'")
                 else:
                     out.fail("c10.lookup_raised", f"{tag}: lookup of {key!r} by {kind}: {type(e).__name__}: {str(e)[:100]}")
             out.see("lookups")
